@@ -253,7 +253,8 @@ def rung(e, minimal):
             return P_XOR
         return 0
     if k == "ter":
-        return {"falls": 0, "between": P_CMP, "slice": P_SLICE}[e[1]]
+        # the alternative of `a, falls c, ansonsten b` is a whole `falls` expression again (theorem falls_shape)
+        return {"falls": P_FALLS, "between": P_CMP, "slice": P_SLICE}[e[1]]
     if k == "cast":
         return P_CAST
     if k == "typecheck":
@@ -327,7 +328,7 @@ def _pp(e, m):
     if k == "ter":
         op, a, b, c = e[1], e[2], e[3], e[4]
         if op == "falls":
-            return "%s, falls %s, ansonsten %s" % (pp_expr(a, m, P_XOR), pp_expr(b, m, P_XOR), pp_expr(c, m, P_XOR))
+            return "%s, falls %s, ansonsten %s" % (pp_expr(a, m, P_XOR), pp_expr(b, m, P_XOR), pp_expr(c, m, P_FALLS if m else P_XOR))
         if op == "between":
             return "%s zwischen %s und %s ist" % (pp_expr(a, m, P_SHIFT), pp_expr(b, m, P_SHIFT), pp_expr(c, m, P_SHIFT))
         if op == "slice":
